@@ -28,6 +28,7 @@ RULE = (
     "case = one byte string: (a) every seed stream of the corpus (valid streams of ~65 configurations/variants built with "
     "the real encoder), (b) prefixes of every seed (thorough: every prefix; quick: every prefix of seeds <= 300 bytes, "
     "else first 64 bytes, +-8 bytes around every data unit boundary and every 7th byte), (c) vlib.gen.mutate.random_case: "
+    "(incl. runs of >= 3572 zero bytes in sequence header fields, i.e. integers of > 4300 digits) "
     "stacked byte-level operators, field-level edits of the deserialised description re-serialised without autofill, "
     "coordinated unit-interaction operators, pure random bytes, random bytes after a valid sequence header; "
     "distinct = distinct byte string; cases rejected at the very first parse_info are trivial; out-of-scope "
@@ -173,9 +174,24 @@ def _quick_prefix_lengths(data):
     return sorted(keep)
 
 
+ABORT_AFTER_BUDGET_VIOLATIONS = 10
+
+
+def _abort(ctx):
+    """A tree on which the validator keeps running past its budget costs seconds
+    per case: after 10 such violations (never on the unchanged tree) the shard
+    stops generating cases -- the verdict is 'violated' either way."""
+    if ctx.violation_counts.get("no-result-within-logical-budget", 0) >= ABORT_AFTER_BUDGET_VIOLATIONS:
+        if not ctx.counters.get("shard_aborted_after_budget_violations"):
+            ctx.count("shard_aborted_after_budget_violations")
+        return True
+    return False
+
+
 def cases(spec, ctx):
     tier = spec.get("tier", ctx.tier)
-    corp = corpus_mod.seed_corpus(ctx.seed, "quick" if tier == "quick" else "thorough")
+    # (the seeds are validated here, as cases under the step counter, not by the builder)
+    corp = corpus_mod.seed_corpus(ctx.seed, "quick" if tier == "quick" else "thorough", validate=False)
     shard, nsh = spec["shard"], spec["nshards"]
     arm_all = tier != "quick"
     k = 0
@@ -190,7 +206,9 @@ def cases(spec, ctx):
     # (a) the seeds themselves
     for j, (label, data) in enumerate(corp):
         if j % nsh == shard:
-            yield {"data": data, "op": "seed", "seed": label, "armed": armed(k)}
+            if _abort(ctx):
+                return
+            yield {"data": data, "op": "seed", "seed": label, "armed": True}
             k += 1
     # (b) truncation sweep
     g = 0
@@ -198,11 +216,17 @@ def cases(spec, ctx):
         lengths = range(len(data)) if tier != "quick" else _quick_prefix_lengths(data)
         for n in lengths:
             if g % nsh == shard:
-                yield {"data": data[:n], "op": "truncation", "seed": label, "armed": armed(k)}
+                if _abort(ctx):
+                    return
+                # always under the step counter: short, cheap, and where a reader that
+                # no longer raises at end of input shows up first
+                yield {"data": data[:n], "op": "truncation", "seed": label, "armed": True}
                 k += 1
             g += 1
     # (c) mutations
     for i in range(spec["n_random"]):
+        if _abort(ctx):
+            return
         c = mutate.random_case(corp, ctx.rng)
         c["armed"] = armed(k)
         k += 1
@@ -240,6 +264,8 @@ def crash_signature(v):
         return "validator-crash:fragment_header:no-first-fragment"
     if func == "fragment_header" and cls == "KeyError" and arg == "_picture_initial_fragment_offset":
         return "validator-crash:fragment_header:slice-fragment-after-unfragmented-picture"
+    if cls == "ValueError" and ("Exceeds the limit" in str(exc) or "integer string conversion" in str(exc)):
+        return "validator-crash:int-max-str-digits"
     sig = "validator-crash:%s.%s:%s" % (fname, func, cls)
     if arg:
         sig += ":" + _KEY_RE.sub("_", arg)[:40]
@@ -344,11 +370,19 @@ def run_case(case, ctx):
             trivial = True
         if v.report_error is not None:
             ctx.note("verdict_classes", "report-crash")
-            ctx.violation("report-crash:" + v.exc_class,
+            sig = "report-crash:" + v.exc_class
+            if "Exceeds the limit" in v.report_error or "integer string conversion" in v.report_error:
+                # CPython >= 3.11 refuses int -> str beyond 4300 digits: one mechanism
+                # whatever ConformanceError class carries the huge value
+                sig = "report-crash:int-max-str-digits"
+                ctx.count("int_max_str_digits_reports")
+            ctx.violation(sig,
                           "%s raised by the validator could not be reported: %s" % (v.exc_class, v.report_error),
                           detail={"op": op, "seed": case.get("seed"), "raise_site": v.site})
         if op == "seed":
-            ctx.violation("corpus-seed-rejected", "corpus seed %s rejected with %s" % (case.get("seed"), v.exc_class))
+            # not this property's business (C01/C03), but the workload is not what RULE says: floor() reports it
+            ctx.count("seeds_rejected")
+            ctx.note("seeds_rejected", "%s:%s" % (case.get("seed"), v.exc_class))
     else:  # crash
         ctx.count("crashed")
         ctx.note("verdict_classes", "crash")
@@ -387,10 +421,13 @@ def floor(agg, tier):
         miss.append("too few cases ran under the step counter (%d)" % c.get("armed_cases", 0))
     if c.get("seeds_accepted", 0) < 50:
         miss.append("fewer than 50 corpus seeds validated (%d)" % c.get("seeds_accepted", 0))
+    if c.get("seeds_rejected", 0):
+        miss.append("%d corpus seed(s) built by the real encoder were rejected by the validator: %s"
+                    % (c["seeds_rejected"], sorted(agg["sets"].get("seeds_rejected", ()))[:5]))
     for fam in ("b", "f", "c", "truncation", "seed"):
         if c.get("opfam:" + fam, 0) == 0:
             miss.append("mutator family %s never used" % fam)
-    for op in ("c:zero-next+wrong-prev", "c:slice-fragment-without-first", "c:fragment-after-picture-same-number",
+    for op in ("b:long-zero-run", "c:zero-next+wrong-prev", "c:slice-fragment-without-first", "c:fragment-after-picture-same-number",
                "b:random", "b:hdr-then-random", "b:truncate", "b:unit-swap", "f~tol"):
         if c.get("op:" + op, 0) == 0:
             miss.append("operator %s never used" % op)
